@@ -475,7 +475,7 @@ pub fn run(tier: Tier, seed: u64) -> i32 {
     run.shrink_iters = 150;
     run.enumerate("regress", load_regress("C06"), false, case_regress);
     if !run.failed() {
-        run.random("binary", tier.pick(1_500, 60_000), 700, case);
+        run.random("binary", tier.pick(1_500, 30_000), 700, case);
     }
     run.shards = nshards();
     run.shrink_iters = 2000;
